@@ -157,4 +157,22 @@ theorem forkfold_closes (c : α → α → α) (e : α) (par inCap : Nat) (hpar 
     simp only [hcoll, Post] at hC
     exact ⟨rfl, hC.2.2.2⟩
 
+/-- The result does not depend on the degree of parallelism, the input capacity, the gate, the schedule, or the order in
+which the elements were offered: two completed uncancelled runs — any two configurations, any two interleavings — whose
+inputs are permutations of each other hand the consumer the same single value. -/
+theorem forkfold_independent (c : α → α → α) (e : α) (hm : CommMonoid c e)
+    (par inCap par' inCap' : Nat) (gated gated' : Bool) (hpar : 1 ≤ par) (hpar' : 1 ≤ par')
+    {s s' : FF α} (hr : FF.Reachable c e par (FF.init e par inCap gated) s)
+    (hr' : FF.Reachable c e par' (FF.init e par' inCap' gated') s')
+    (hc : s.pool.cancelled = false) (hc' : s'.pool.cancelled = false)
+    (hs : s.coll = .closeVals ∨ s.coll = .closeDone ∨ s.coll = .halted)
+    (hs' : s'.coll = .closeVals ∨ s'.coll = .closeDone ∨ s'.coll = .halted)
+    (hp : (s.pool.sent 0).Perm (s'.pool.sent 0)) :
+    s.delivered ++ s.done.buf = s'.delivered ++ s'.done.buf := by
+  rw [forkfold_eq c e hm par inCap gated hpar hr hc hs, forkfold_eq c e hm par' inCap' gated' hpar' hr' hc' hs']
+  congr 1
+  refine hp.foldl_eq' ?_ e
+  intro x _ y _ z
+  rw [hm.assoc, hm.assoc, hm.comm x y]
+
 end Golem.Props.C10
